@@ -233,8 +233,10 @@ func H11dia() {
 	second := []string{"a:RIGHT", "r:ROOT"}[symChoice(2)]
 	b := `module b { yang-version 1.1; namespace "urn:b"; prefix b; import r { prefix r; } import a { prefix a; } identity BOTH { base a:LEFT; base ` + second + `; } identity LEAF { base BOTH; } identity KIND; ` +
 		`leaf u { type union { type identityref { base a:KIND; } type identityref { base KIND; } type identityref { base r:KIND; } } } leaf d { type identityref { base r:ROOT; } } }`
-	texts := []string{r, a, b}
-	orders := [][]int{{0, 1, 2}, {2, 1, 0}, {1, 2, 0}, {2, 0, 1}}
+	// a fourth module that knows r under the prefix by which b knows a
+	e := `module e { yang-version 1.1; namespace "urn:e"; prefix e; import r { prefix a; } leaf le { type identityref { base a:KIND; } } leaf le2 { type identityref { base a:ROOT; } } }`
+	texts := []string{r, a, b, e}
+	orders := [][]int{{0, 1, 2, 3}, {3, 2, 1, 0}, {1, 2, 0, 3}, {2, 3, 0, 1}}
 	o := orders[symChoice(len(orders))]
 	hNoFiles()
 	ms := NewModules()
@@ -304,6 +306,8 @@ func H11dia() {
 	}
 	d := eb.Dir["d"]
 	check(d != nil && d.Type != nil && d.Type.IdentityBase == id("r", "ROOT"), "an identityref sees the list of the identity it names")
+	ee := ToEntry(ms.Modules["e"])
+	check(ee.Dir["le"].Type.IdentityBase == id("r", "KIND") && ee.Dir["le2"].Type.IdentityBase == id("r", "ROOT"), "a prefix in a base statement is read with the imports of the module that writes it, whatever another module calls by that prefix")
 }
 
 // H11late: identities that arrive after a processing run. Module r holds ROOT <- MID; module c,
